@@ -12,6 +12,7 @@ lib.repo_env.shim()
 from lib import e4, e4_corpus, e5
 from guppylang_internals.error import GuppyError
 from crosshair.tracers import NoTracing
+from crosshair.core import realize
 
 KIND = os.environ.get("VERIF_E4_KIND", "c03")
 N = int(os.environ.get("VERIF_E4_N", "20"))
@@ -106,6 +107,8 @@ def h_equiv5(which: int, x: int, y: int, r0: int, r1: int, r2: int, r3: int, r4:
             entry, k = ENTRIES[i], i
     if entry is None:
         return True
+    if "# enumerate: x" in entry[0].src:
+        x = realize(x)
     rets = [r0, r1, r2, r3, r4, r5, r6, r7]
     ra, rb = e4.Rec(rets), e4.Rec(rets)
     b = _outcome_b(entry, (x, y), rb)
